@@ -1263,7 +1263,7 @@ class ProcessPoolExecutor(Executor):
             self._processes[p.pid] = p
         mp.util.debug(
             f"Adjusted process count to {self._max_workers}: "
-            f"{[(p.name, pid) for pid, p in self._processes.items()]}"
+            f"{[(p.name, pid) for pid, p in list(self._processes.items())]}"
         )
 
     def _ensure_executor_running(self):
